@@ -268,6 +268,11 @@ where
                     self.transition(excluded, Event::Signal);
                 }
             }
+
+            // every machine has now received its one signal for this call: a
+            // signal raised by the last delivery above cannot be delivered
+            // anymore and must not leak into the next call
+            self.signal_pending = None;
         }
 
         // only return actions, no None
